@@ -881,7 +881,9 @@ class NonTermination(Exception):
     """a library time/record iterator exceeded its deterministic budget"""
 
 
-_GUARD = {'installed': False, 'yields': 0, 'nexts': 0}
+_GUARD = {'installed': False, 'yields': 0, 'nexts': 0, 'timeops': 0}
+MAX_TIMEOPS = 200000      # timeadd/timediff calls per case (readers step
+#                           through <= 4 time steps; a few hundred calls)
 MAX_YIELDS = 10000        # files have <= 4 steps
 MAX_NEXTS = 20000         # RecordFile.next calls per case (files have a few
 #                           hundred records; readers re-scan per variable)
@@ -916,6 +918,34 @@ def install_guards():
                 continue
             if hasattr(mod, 'timerange'):
                 mod.timerange = counted
+    # the step-scanning loops of the record readers (`while True: seek;
+    # timeadd`) call neither timerange nor RecordFile.next: count the time
+    # arithmetic itself
+    def counting(fn):
+        def wrapper(*a, **k):
+            _GUARD['timeops'] += 1
+            if _GUARD['timeops'] > MAX_TIMEOPS:
+                raise NonTermination('%s called more than %d times in one '
+                                     'case' % (fn.__name__, MAX_TIMEOPS))
+            return fn(*a, **k)
+        wrapper.__wrapped__ = fn
+        wrapper.__name__ = fn.__name__
+        return wrapper
+    ctimeadd = counting(timetuple.timeadd)
+    ctimediff = counting(timetuple.timediff)
+    for fmt in ['uamiv', 'temperature', 'height_pressure', 'humidity',
+                'vertical_diffusivity', 'wind', 'one3d', 'cloud_rain',
+                'landuse', 'lateral_boundary']:
+        for sub in ('Read', 'Write', 'Memmap'):
+            try:
+                mod = importlib.import_module(
+                    'PseudoNetCDF.camxfiles.%s.%s' % (fmt, sub))
+            except Exception:
+                continue
+            if getattr(mod, 'timeadd', None) is timetuple.timeadd:
+                mod.timeadd = ctimeadd
+            if getattr(mod, 'timediff', None) is timetuple.timediff:
+                mod.timediff = ctimediff
     onext = FortranFileUtil.RecordFile.next
 
     def cnext(self):
@@ -932,6 +962,7 @@ def reset_guards():
     install_guards()
     _GUARD['yields'] = 0
     _GUARD['nexts'] = 0
+    _GUARD['timeops'] = 0
 
 
 def cleanup(*paths):
@@ -958,7 +989,8 @@ def drop(*objs):
 def tripped():
     """True if a budget was exhausted in this case (even if the library
     swallowed the NonTermination exception)"""
-    return _GUARD['yields'] > MAX_YIELDS or _GUARD['nexts'] > MAX_NEXTS
+    return (_GUARD['yields'] > MAX_YIELDS or _GUARD['nexts'] > MAX_NEXTS or
+            _GUARD['timeops'] > MAX_TIMEOPS)
 
 
 # ------------------------------------------------- snapshot of a library file
